@@ -622,6 +622,48 @@ func isTree(s *jsonschema.Schema, seen map[*jsonschema.Schema]bool) bool {
 
 func (p c10) structCase(c *fw.Case) {
 	r := c.R
+	if r.IntN(40) == 0 {
+		// a Schema value inside a keyword that holds ARBITRARY values (examples, enum, const) of a Schema built in Go, and a
+		// pointer reference that leads to it: not a subschema. Resolve may refuse or accept; nothing may panic afterwards.
+		inner := &jsonschema.Schema{Type: gen.Pick(r, gen.TypeNames)}
+		holder := &jsonschema.Schema{}
+		ptr := ""
+		switch r.IntN(3) {
+		case 0:
+			holder.Examples = []any{"x", inner}
+			ptr = "#/examples/1"
+		case 1:
+			holder.Enum = []any{inner, 1.0}
+			ptr = "#/enum/0"
+		default:
+			var cv any = inner
+			holder.Const = &cv
+			ptr = "#/const"
+		}
+		root := holder
+		if r.IntN(2) == 0 {
+			holder.Properties = map[string]*jsonschema.Schema{"a": {Ref: ptr}}
+		} else {
+			holder.Ref = ptr
+		}
+		var rs *jsonschema.Resolved
+		var err error
+		in := map[string]any{"schema_go": "Schema holding a *Schema in a value keyword", "reference": ptr}
+		if !c.CallChecked("Resolve", in, func() { rs, err = root.Resolve(nil) }) {
+			return
+		}
+		c.Eval(1)
+		c.Nontrivial("Resolve(non-subschema pointer)|" + errClass(err))
+		if err == nil {
+			for _, inst := range []any{1.0, "x", map[string]any{"a": "x"}, map[string]any{"a": 1.0}, nil} {
+				if !c.CallChecked("Validate", in, func() { _ = rs.Validate(inst) }) {
+					return
+				}
+				c.Eval(1)
+			}
+		}
+		return
+	}
 	s := gen.SchemaStruct(r, &gen.StructOpts{Hostile: true, MaxDepth: 3, PropOrder: true})
 	tree := isTree(s, map[*jsonschema.Schema]bool{})
 	desc := "hostile Schema value"
